@@ -172,9 +172,14 @@ class Gen(object):
                 prog.append(("query", (qp, ("_" if arg == "X" else arg,))))
             else:
                 prog.append(("query", (qp, ())))
-        if self.evidence and r.random() < 0.4:
-            ep, ear = r.choice(qcands + prob_atoms)
-            prog.append(("evidence", (ep, (r.choice(CONSTS),) if ear else ()), r.random() < 0.6))
+        if self.evidence:
+            done = set()
+            for _ in range(r.choice([0, 0, 0, 1, 1, 1, 2, 3])):
+                ep, ear = r.choice(qcands + prob_atoms)
+                ea = (ep, (r.choice(CONSTS),) if ear else ())
+                if ea not in done:          # (two statements on one atom could contradict each other)
+                    done.add(ea)
+                    prog.append(("evidence", ea, r.random() < 0.6))
         return prog
 
     def body_atom(self, pa, consts):
@@ -245,10 +250,14 @@ def graph_program(rng, evidence=True, negation=True):
             prog.append(("query", (qp, (rng.choice(CONSTS + ["_"]), rng.choice(CONSTS)))))
         else:
             prog.append(("query", (qp, ())))
-    if evidence and rng.random() < 0.5:
-        ep, ear = rng.choice(defined + [("e", 2)])
-        args = tuple(rng.choice(CONSTS) for _ in range(ear))
-        prog.append(("evidence", (ep, args), rng.random() < 0.6))
+    if evidence:
+        done = set()
+        for _ in range(rng.choice([0, 0, 1, 1, 2])):
+            ep, ear = rng.choice(defined + [("e", 2)])
+            ea = (ep, tuple(rng.choice(CONSTS) for _ in range(ear)))
+            if ea not in done:
+                done.add(ea)
+                prog.append(("evidence", ea, rng.random() < 0.6))
     return prog
 
 
@@ -312,7 +321,27 @@ def negcycle_program(rng, evidence=True):
     return prog
 
 
-def programs(seed, n, **kw):
+def rare_evidence_program(rng):
+    """Profile for the semiring / option checks: evidence of very small but clearly non-zero probability (1e-10 .. 1e-6,
+    far above the 1e-12 tolerance under which the probability semiring treats a weight as zero) and queries whose joint
+    weight with the evidence is smaller still, so that the answer depends on products below that tolerance."""
+    tiny = [Fraction(1, 10 ** rng.randint(3, 5)) for _ in range(3)]
+    prog = [("fact", tiny[i], ("t%d" % i, ())) for i in range(3)]
+    prog.append(("fact", rng.choice(PROBS), ("f0", ())))
+    prog.append(("rule", ("e", ()), [(True, ("t0", ())), (True, ("t1", ()))]))
+    if rng.random() < 0.5:
+        prog.append(("rule", ("e", ()), [(True, ("t0", ())), (True, ("t2", ())), (True, ("f0", ()))]))
+    prog.append(("rule", ("q", ()), [(True, ("t2", ())), (True, ("e", ()))] if rng.random() < 0.5 else [(True, ("t2", ()))]))
+    prog.append(("rule", ("r", ()), [(True, ("f0", ())), (rng.random() < 0.5, ("t2", ()))]))
+    prog.append(("query", ("q", ())))
+    prog.append(("query", ("r", ())))
+    prog.append(("evidence", ("e", ()), True))
+    return prog
+
+
+def programs(seed, n, extreme=False, **kw):
+    """extreme=True: in a third of the programs one probabilistic fact gets probability 0.0 or 1.0 (valid
+    annotations at the border of the range; weight propagation and log space treat them specially)."""
     rng = random.Random(seed)
     g = Gen(rng, **kw)
     out = []
@@ -320,7 +349,9 @@ def programs(seed, n, **kw):
     while len(out) < n and tries < n * 20:
         tries += 1
         r = rng.random()
-        if g.neg_cycles and r < 0.5:
+        if extreme and r > 0.92:
+            p = rare_evidence_program(rng)
+        elif g.neg_cycles and r < 0.5:
             p = negcycle_program(rng, evidence=g.evidence)
         elif not g.neg_cycles and g.recursion and r < 0.25:
             p = graph_program(rng, evidence=g.evidence, negation=g.negation)
@@ -329,5 +360,10 @@ def programs(seed, n, **kw):
         else:
             p = g.program()
         if count_choices(p) <= g.max_choices:
+            if extreme and rng.random() < 0.34:
+                idx = [i for i, st in enumerate(p) if st[0] == "fact"]
+                if idx:
+                    i = rng.choice(idx)
+                    p[i] = ("fact", Fraction(rng.choice([0, 1])), p[i][2])
             out.append(p)
     return out
